@@ -115,7 +115,7 @@ class Model:
             from .normalize import normalize_module
             _splice_private_modules(self.modules)
             for mod in self.modules.values():
-                mod.tree = normalize_module(mod.tree, mod.modname)
+                mod.tree = _normalized(mod, normalize_module)
         if len(self.modules) < MIN_FILES:
             raise AnalysisError('only %d package files parsed, expected >= %d' % (len(self.modules), MIN_FILES))
         for mod in self.modules.values():
@@ -413,6 +413,50 @@ class Model:
         else:
             return None
         return self.canonical('.'.join([base] + parts))
+
+
+# -------------------------------------------------------------------- normal forms of unchanged modules are reused between the variants of a self-test run
+_NORM_DIGEST = None
+
+
+def _normalized(mod, normalize_module):
+    """normalize_module(mod.tree), memoised on disk by the exact content of the (spliced) module and of the normaliser's own sources.  Only used when SA_NORM_CACHE=1
+    (the self-test analyses hundreds of scratch copies that differ from /repo in one or two files); a plain check of /repo always normalises afresh."""
+    if os.environ.get('SA_NORM_CACHE') != '1':
+        return normalize_module(mod.tree, mod.modname)
+    import hashlib, pickle, tempfile, sys
+    global _NORM_DIGEST
+    try:
+        if _NORM_DIGEST is None:
+            h = hashlib.sha256()
+            here = os.path.dirname(os.path.abspath(__file__))
+            for fn in ('normalize.py', 'lower.py', 'devirt.py', 'core.py'):
+                h.update(open(os.path.join(here, fn), 'rb').read())
+            _NORM_DIGEST = h.hexdigest()
+        key = hashlib.sha256((_NORM_DIGEST + '\0' + mod.modname + '\0' + ast.dump(mod.tree, include_attributes=True)).encode()).hexdigest()
+        cdir = os.path.join(tempfile.gettempdir(), 'sa_normcache_%d' % os.getuid())
+        path = os.path.join(cdir, key + '.pkl')
+        if os.path.exists(path):
+            with open(path, 'rb') as fh:
+                return pickle.load(fh)
+    except Exception:
+        return normalize_module(mod.tree, mod.modname)
+    tree = normalize_module(mod.tree, mod.modname)
+    try:
+        os.makedirs(cdir, exist_ok=True)
+        old_limit = sys.getrecursionlimit()
+        sys.setrecursionlimit(max(old_limit, 20000))
+        try:
+            data = pickle.dumps(tree, protocol=pickle.HIGHEST_PROTOCOL)
+        finally:
+            sys.setrecursionlimit(old_limit)
+        tmp = path + '.%d.tmp' % os.getpid()
+        with open(tmp, 'wb') as fh:
+            fh.write(data)
+        os.replace(tmp, path)
+    except Exception:
+        pass
+    return tree
 
 
 # -------------------------------------------------------------------- private modules are part of the module that imports them
